@@ -12,6 +12,7 @@ import (
 	"encoding/json"
 	"fmt"
 	"hash/fnv"
+	"net/http"
 	"net/http/httptest"
 	"os"
 	"path/filepath"
@@ -46,6 +47,12 @@ type concCall struct {
 }
 
 var portRe = regexp.MustCompile(`127\.0\.0\.1:[0-9]+`)
+
+// error texts are compared by shape: quoted member names and values inside them may come from
+// Go map iteration ("unexpected field \"zzabc\"" names whichever additional member came first)
+var digitsRe = regexp.MustCompile(`[0-9]+`) // byte offsets in decode errors depend on member order too
+
+var quotedRe = regexp.MustCompile(`\\?"[^"\\]*\\?"`)
 
 func hashStr(s string) uint64 {
 	h := fnv.New64a()
@@ -185,7 +192,16 @@ func concPackage(u *vk.Unit, p *reg.Package, meta Meta, pkg string) {
 		}
 		ts := httptest.NewServer(srv)
 		defer ts.Close()
-		cli, err := p.NewClient(ts.URL, reg.ClientConfig{Call: call, HTTPClient: ts.Client()})
+		// no connection reuse: net/http's Transport silently RETRIES idempotent requests when a reused
+		// keep-alive connection turns out to be closed, which shows up as extra handler invocations
+		// under load and has nothing to do with the generated code
+		hc := ts.Client()
+		if tr, ok := hc.Transport.(*http.Transport); ok {
+			tr2 := tr.Clone()
+			tr2.DisableKeepAlives = true
+			hc = &http.Client{Transport: tr2}
+		}
+		cli, err := p.NewClient(ts.URL, reg.ClientConfig{Call: call, HTTPClient: hc})
 		if err != nil {
 			return nil, nil, err
 		}
@@ -210,7 +226,7 @@ func concPackage(u *vk.Unit, p *reg.Package, meta Meta, pkg string) {
 			}
 			o := outcome{}
 			if e, ok := out[len(out)-1].Interface().(error); ok && e != nil {
-				o.errc = portRe.ReplaceAllString(e.Error(), "HOST")
+				o.errc = digitsRe.ReplaceAllString(quotedRe.ReplaceAllString(portRe.ReplaceAllString(e.Error(), "HOST"), `"…"`), "N")
 			} else if len(out) > 1 {
 				if b, err := json.Marshal(out[0].Interface()); err == nil {
 					o.result = canonical(b)
@@ -251,6 +267,24 @@ func concPackage(u *vk.Unit, p *reg.Package, meta Meta, pkg string) {
 	if err != nil {
 		u.T.Fatalf("sequential run: %v", err)
 	}
+	// calls whose outcome is not a function of the call even WITHOUT concurrency (error texts that name
+	// "the first" offending member of a Go map, documents whose acceptance depends on map order) are
+	// found by a second sequential run on fresh instances and taken out of the comparison
+	seq2, seqRecv2, err := run(1, 0)
+	if err != nil {
+		u.T.Fatalf("second sequential run: %v", err)
+	}
+	unstable := map[int]bool{}
+	for i := range calls {
+		if seq[i] != seq2[i] {
+			unstable[i] = true
+			u.Label("call-unstable-without-concurrency")
+		}
+	}
+	recvComparable := reflect.DeepEqual(seqRecv, seqRecv2)
+	if !recvComparable {
+		u.Label("package-handler-arguments-unstable-without-concurrency")
+	}
 	configs := [][2]int{{8, 16}, {2, 2}, {64, 4}}
 	if vk.Tier() == "thorough" {
 		configs = append(configs, [2]int{8, 1}, [2]int{64, 16}, [2]int{16, 2}, [2]int{8, 16}, [2]int{64, 4})
@@ -263,6 +297,9 @@ func concPackage(u *vk.Unit, p *reg.Package, meta Meta, pkg string) {
 		u.Eval(len(calls))
 		u.Label(fmt.Sprintf("goroutines=%d,procs=%d", cfg[0], cfg[1]))
 		for i := range calls {
+			if unstable[i] {
+				continue
+			}
 			if outs[i] != seq[i] {
 				u.Report(vk.F("concurrent-outcome-differs", "%s call %d (%s%s): alone it gives result %q error %q, among %d goroutines (GOMAXPROCS %d) result %q error %q",
 					pkg, i, calls[i].cm, renderValues(calls[i].args), trim(seq[i].result, 300), trim(seq[i].errc, 300), cfg[0], cfg[1], trim(outs[i].result, 300), trim(outs[i].errc, 300)),
@@ -273,14 +310,26 @@ func concPackage(u *vk.Unit, p *reg.Package, meta Meta, pkg string) {
 				u.NonTrivial(fmt.Sprintf("%s|%d|%d|%d|%s", pkg, cfg[0], cfg[1], i, seq[i].result))
 			}
 		}
-		if !reflect.DeepEqual(recv, seqRecv) {
-			diff := ""
-			for i := 0; i < len(recv) && i < len(seqRecv); i++ {
-				if recv[i] != seqRecv[i] {
-					diff = fmt.Sprintf("%q vs %q", trim(seqRecv[i], 300), trim(recv[i], 300))
-					break
+		if recvComparable && !reflect.DeepEqual(recv, seqRecv) {
+			// multiset difference: what arrived only alone / only under concurrency
+			cnt := map[string]int{}
+			for _, r := range seqRecv {
+				cnt[r]++
+			}
+			for _, r := range recv {
+				cnt[r]--
+			}
+			var onlySeq, onlyConc []string
+			for r, c := range cnt {
+				if c > 0 {
+					onlySeq = append(onlySeq, trim(r, 200))
+				} else if c < 0 {
+					onlyConc = append(onlyConc, trim(r, 200))
 				}
 			}
+			sort.Strings(onlySeq)
+			sort.Strings(onlyConc)
+			diff := fmt.Sprintf("only alone: %q; only under concurrency: %q", first(onlySeq, 3), first(onlyConc, 3))
 			u.Report(vk.F("concurrent-handler-arguments-differ", "%s: the handler received a different multiset of arguments among %d goroutines (%d vs %d calls; first difference %s)", pkg, cfg[0], len(seqRecv), len(recv), diff),
 				ConcCase{Doc: meta.Doc, TimeFormat: meta.TimeFormat, Seed: seed, Goroutines: cfg[0], Procs: cfg[1], Call: -1})
 		}
@@ -294,4 +343,11 @@ func renderValues(vs []reflect.Value) string {
 		a = append(a, v.Interface())
 	}
 	return trim(renderArgs(a), 400)
+}
+
+func first(l []string, n int) []string {
+	if len(l) > n {
+		return l[:n]
+	}
+	return l
 }
